@@ -355,7 +355,60 @@ def r5_every_response_stamped(ctx):
         ctx.lost(R, "return aggregates of the wrapper")
 
 
-RULES = [("C13.R1", r1_only_error_codes), ("C13.R2", r2_response_construction), ("C13.R3", r3_internal_stays_internal), ("C13.R4", r4_one_request_id), ("C13.R5", r5_every_response_stamped)]
+
+# potential panic sites on the path from an error value to its response, each with the reason it cannot fire (frozen; keyed
+# by the source-level function, kind and callee; the number is the reviewed multiplicity)
+ERROR_PATH_PANICS = {
+    ("error::HttpError::for_internal_error", "unwrap"): (1, "canonical_reason() of the constant 500, which has a standard label"),
+    ("error::HttpError::for_unavail", "unwrap"): (1, "canonical_reason() of the constant 503, which has a standard label"),
+    ("error::HttpError::for_not_found", "unwrap"): (1, "canonical_reason() of the constant 404, which has a standard label"),
+    ("error::HttpError::into_response", "expect"): (1, "headers_mut() of a response builder created two statements earlier: it cannot have failed yet"),
+    ("error::HttpError::into_response", "unwrap"): (2, "serde_json of a struct of two strings and an Option<String> cannot fail; Builder::body fails only for an invalid status/header, and status is an ErrorStatusCode, the headers are constants, a HeaderMap and the request id (a UUID)"),
+    ("handler::HandlerError::into_response", "panic_fmt"): (1, "the request id is a UUID, always a valid HeaderValue (unreachable! arm)"),
+}
+
+
+def r6_error_path_cannot_panic(ctx):
+    """Added after defect F8 (for_client_error_with_status unwrapped the reason phrase of an arbitrary client code) and
+    adversary change C13-D (Display for HttpError did the same, and HandlerError::from calls to_string())."""
+    from .lib_c10 import panic_sites
+    R = ctx.rule("C13.R6", "every potential panic site on the way from an error value to its response — HttpError's constructors, into_response, Display/Error impls, "
+                 "HandlerError's conversions — is on the reviewed table with the reason it cannot fire for any representable status", floor=6)
+    roots = [f for f in ctx.ds.F.values() if f.raw["kind"] in ("Fn", "AssocFn") and re.search(
+        r"^error::HttpError::|^<error::HttpError as |^handler::HandlerError::|^<handler::HandlerError as |^<error::HttpErrorResponseBody as |^error_status_code::(Client)?ErrorStatusCode::(as_|canonical_reason|is_)", f.id)]
+    ctx.check(R, "error-path-functions", len(roots) >= 20, "functions of the error path examined: %d" % len(roots), nontrivial=False)
+    seen = {}
+    for f in roots:
+        for g in [f] + ctx.ds.descendants(f):
+            for kind, what, exp, bb in panic_sites(g):
+                key = (f.id, what.split("::")[-1])
+                seen.setdefault(key, []).append((g, bb))
+    for key, sites in sorted(seen.items()):
+        entry = ERROR_PATH_PANICS.get(key)
+        ok = entry is not None and len(sites) <= entry[0]
+        ctx.check(R, "panic-site:%s|%s" % key, ok,
+                  ("%d site(s), reviewed: %s" % (len(sites), entry[1])) if ok else
+                  ("%d site(s) of `%s` in %s %s: an error with a status / message / header that makes it fire gets no response at all" % (
+                      len(sites), key[1], key[0], "not on the reviewed table" if entry is None else "(table allows %d)" % entry[0])), sites[0])
+    for key in ERROR_PATH_PANICS:
+        if key not in seen:
+            ctx.check(R, "table-entry:%s|%s" % key, True, "reviewed site no longer present (fine)", nontrivial=False)
+    # every header writer of HttpError appends (a repeated name keeps all its values)
+    writers = []
+    for f in ctx.ds.F.values():
+        if not re.search(r"^error::HttpError::", f.id):
+            continue
+        for bb, t in f.live_calls(r"http::HeaderMap::<T>::(try_)?(insert|append)$"):
+            recv = f.slice(t["args"][0])
+            if recv.has_call(r"^error::HttpError::headers_mut$") or recv.reads_field("headers"):
+                writers.append((f, bb, t))
+    ctx.check(R, "header-writers", len(writers) >= 2, "calls writing into an HttpError's header map: %s" % sorted(set(f.id for f, _, _ in writers)), nontrivial=False)
+    for f, bb, t in writers:
+        app = re.search(r"(try_)?append$", t["callee"]) is not None
+        ctx.check(R, "header-writer-appends:%s" % f.id, app, "%s uses HeaderMap::%s (insert would drop an earlier value of a repeated header such as WWW-Authenticate / Set-Cookie / Allow)" % (f.id, t["callee"].split("::")[-1]), (f, bb))
+
+
+RULES = [("C13.R6", r6_error_path_cannot_panic), ("C13.R1", r1_only_error_codes), ("C13.R2", r2_response_construction), ("C13.R3", r3_internal_stays_internal), ("C13.R4", r4_one_request_id), ("C13.R5", r5_every_response_stamped)]
 
 SELFTEST = [
     {"name": "leak-internal", "kind": "mutant", "edits": [("dropshot/src/error.rs", "message: self.external_message,", "message: self.internal_message,")], "expect": ["C13.R2", "C13.R3"], "why": "internal text sent to the client"},
@@ -363,6 +416,9 @@ SELFTEST = [
     {"name": "second-request-id", "kind": "mutant", "edits": [("dropshot/src/server.rs", "        request_id: request_id.to_string(),", "        request_id: generate_request_id(),")], "expect": ["C13.R4"], "why": "handler sees a different id than the header"},
     {"name": "handler-arm-unstamped", "kind": "mutant", "edits": [("dropshot/src/handler.rs", "                        rsp.headers_mut()\n                            .insert(crate::HEADER_REQUEST_ID, header);", "                        let _ = header;")], "expect": ["C13.R5"], "why": "custom error responses lack x-request-id"},
     {"name": "wrong-const-range", "kind": "mutant", "edits": [("dropshot/src/error_status_code.rs", "            pub const $name: Self = Self(http::StatusCode::$name);", "            pub const $name: Self = Self(http::StatusCode::OK);")], "expect": ["C13.R1"], "why": "associated constants outside 400-599"},
+    {"name": "prefix-f8", "kind": "mutant", "revert": "b7f29f9", "expect": ["C13.R6"], "why": "pre-fix code: for_client_error_with_status unwraps the reason phrase of an arbitrary client code"},
     {"name": "extend-headers", "kind": "benign", "edits": [("dropshot/src/error.rs", "            *builder_headers = *headers;", "            builder_headers.extend(*headers);")], "why": "HeaderMap::extend from an owned HeaderMap keeps every value"},
     {"name": "commuted-or", "kind": "benign", "edits": [("dropshot/src/error_status_code.rs", "if status.is_client_error() || status.is_server_error() {", "if status.is_server_error() || status.is_client_error() {")], "why": "same predicate"},
 ]
+
+LEVEL_TEXT += " Also (R6): every potential panic site between an error value and its response is on a reviewed table (no constructor, Display impl or conversion can panic for a representable status), and every writer of an error's header map appends."
